@@ -84,7 +84,9 @@ pub(crate) fn create_client(ip: IpAddr, port: u16) -> NetcodeClientTransport {
     let now = SystemTime::now()
         .duration_since(SystemTime::UNIX_EPOCH)
         .unwrap();
-    let client_id = now.as_millis() as u64;
+    // unique among the clients of a server; the creation time in milliseconds is not: after a
+    // host promotion all remaining peers create their client to the new host at once
+    let client_id = uuid::Uuid::new_v4().as_u64_pair().0;
     let authentication = ClientAuthentication::Unsecure {
         client_id,
         server_addr: SocketAddr::new(ip, port),
